@@ -774,7 +774,21 @@ def gen_recipe(r, cfg=None, profile="mixed"):
             if op == "GELU":
                 L["approximate"] = r.random() < 0.5
             L["in"] = [xi]
-            emit(L, x["shape"], tuple(q_))
+            y1 = emit(L, x["shape"], tuple(q_))
+            if dtype in ("int8", "uint8") and r.random() < 0.2 and len(layers) + 2 <= cfg["depth"] + 2:
+                # the same table again after table-less elementwise operations (same function, same input and output quantisation):
+                # whether the table has to be fetched again depends on what ran in between
+                mid = y1
+                for _ in range(r.choice([1, 1, 2])):
+                    eop = r.choice(["ADD", "MUL", "SUB", "MAXIMUM"])
+                    cq = x["q"] if eop == "MAXIMUM" else _rand_q(r, dtype)
+                    mq = vals[mid[0]]["q"] if eop == "MAXIMUM" else x["q"]
+                    mid = emit(dict(op=eop, act="NONE", q=list(x["q"]) if eop != "MAXIMUM" else list(mq), const=dict(shape=r.choice([[1, 1, 1, C], [1, 1, 1, 1]]), q=list(cq)),
+                                    swap=False, **{"in": mid}), x["shape"], tuple(x["q"]) if eop != "MAXIMUM" else tuple(mq))
+                if tuple(vals[mid[0]]["q"]) == tuple(x["q"]):
+                    L2 = dict(L)
+                    L2["in"] = mid
+                    emit(L2, x["shape"], tuple(q_))
         elif fam == "shape":
             op = r.choice(["RESHAPE", "CONCATENATION", "PAD", "SPLIT", "STRIDED_SLICE", "CONCATENATION", "SLICE", "TRANSPOSE", "SQUEEZE_EXPAND", "UNPACK_PACK",
                            "SPLIT_V", "SHAPE"])
